@@ -44,7 +44,7 @@ def make_eval_objects(name, variant, seed):
 
     if name in ("ode", "nonstatio", "statio"):
         st = dict(family="C12", lkind=name, batched=[1] if variant in ("param", "both") else [], pshape="scalar", ot=(variant != "both"),
-                  hetero="none", obsk=(variant in ("obs", "both")), b=2)
+                  hetero=("k1k3" if variant == "plain" else "none"), obsk=(variant in ("obs", "both")), b=2)      # plain: two heterogeneity maps (a static dictionary of functions held by the dynamic loss)
         rec = lossrec.expand(st, seed)
         loss, params, batch = build_loss(rec)
         return loss, params, batch, True
